@@ -479,6 +479,9 @@ pub struct Queries<'a> {
     pub iter_cells: &'a dyn Fn(u8) -> Vec<u32>,
     /// `i_cell::<I>(d)` collected
     pub i_cell: &'a dyn Fn(u8, u32) -> Vec<u32>,
+    /// `orbit(Custom(CUSTOM_LISTS[k]), d)` and its transactional variant
+    pub custom: &'a dyn Fn(usize, u32) -> Vec<u32>,
+    pub custom_tx: &'a dyn Fn(usize, u32) -> Vec<u32>,
 }
 
 /// Classification used by the 3D claims of C03: glued faces closed and mirrored.
@@ -518,6 +521,34 @@ pub fn check_ids_orbits(s: &State, q: &Queries, darts: &[u32], probe_n: &mut u64
     for &d in darts {
         if !s.in_use(d) {
             continue;
+        }
+        // one custom policy per dart (which one varies with the dart): closure under the listed
+        // images, which are closed under inverses
+        {
+            let n_lists = if dim == 3 { crate::anymap::CUSTOM_LISTS.len() } else { crate::anymap::N_CUSTOM_2D };
+            let k = (d as usize * 7 + s.n()) % n_lists;
+            let list = crate::anymap::CUSTOM_LISTS[k];
+            let mut model = vec![d];
+            let mut i = 0;
+            while i < model.len() {
+                let x = model[i];
+                for &b in list {
+                    let y = s.b(b, x);
+                    if y != 0 && !model.contains(&y) {
+                        model.push(y);
+                    }
+                }
+                i += 1;
+            }
+            model.sort_unstable();
+            for (name, got) in [("orbit", (q.custom)(k, d)), ("orbit_transac", (q.custom_tx)(k, d))] {
+                let mut sorted = got.clone();
+                sorted.sort_unstable();
+                let dup = sorted.windows(2).any(|w| w[0] == w[1]);
+                if got.first() != Some(&d) || sorted != model || dup || got.contains(&0) {
+                    out.push(fnd("C03", "custom-orbit-differs-from-definition", format!("{name}(Custom({list:?}), {d}) = {got:?}, the closure under these images is {model:?} (dart first)")));
+                }
+            }
         }
         for (oi, &o) in okinds.iter().enumerate() {
             if dim == 3 && (o == 0 || o == 2) && !claim_3d_vf {
